@@ -96,6 +96,131 @@ def rule_DECL(ctx):
                    'is stored is no longer what was declared' % (unparse(n.ast)[:50], name))
 
 
+def rule_ICDF(ctx):
+    rid = 'D2'
+    ctx.rule(rid, 'inverse CDF of the own coordinate: in unit_to_physical a free parameter is '
+             'dist.ppf(u) or dist.isf(1 - u) (argument compared as a linear form in u), u being '
+             'the unit coordinate at the very index the result is stored to')
+    from ..gaps import linear, _Unknown
+    from fractions import Fraction
+    f = ctx.program.func('Prior.unit_to_physical')
+    pts = [p for p in f.params if p != f.self_name][0]
+    n = 0
+    for st in walk_no_nested(f.node):
+        if not (isinstance(st, ast.Assign) and len(st.targets) == 1 and
+                isinstance(st.targets[0], ast.Subscript) and isinstance(st.value, ast.Call) and
+                isinstance(st.value.func, ast.Attribute) and
+                st.value.func.attr in ('isf', 'ppf', 'sf', 'cdf', 'pdf', 'logpdf') and
+                st.value.args):
+            continue
+        meth = st.value.func.attr
+        tgt_idx = unparse(st.targets[0].slice)
+        reads = []
+
+        def sym(e):
+            if isinstance(e, ast.Subscript) and isinstance(e.value, ast.Name) and \
+                    e.value.id == pts:
+                reads.append(unparse(e.slice))
+                return 'u'
+            return None
+        try:
+            fm = linear(st.value.args[0], sym, {})
+        except _Unknown as exc:
+            ctx.note('D2 not decided: %s' % exc)
+            continue
+        want = {'isf': {'u': Fraction(-1), 1: Fraction(1)}, 'ppf': {'u': Fraction(1)}}.get(meth)
+        ok = want is not None and all(fm.get(k, 0) == want.get(k, 0) for k in set(fm) | set(want))
+        n += 1
+        ctx.ob(rid, 'Prior.unit_to_physical:inverse-cdf', ok, f.where(st),
+               'free parameter = %s(%s): the inverse CDF of the unit coordinate' % (
+                   meth, unparse(st.value.args[0])) if ok else
+               'free parameter = %s(%s): not the inverse CDF of the unit coordinate (expected '
+               'ppf(u) or isf(1 - u)) -- the mapping is reversed, shifted or not a quantile '
+               'function' % (meth, unparse(st.value.args[0])))
+        own = bool(reads) and all(r == tgt_idx for r in reads)
+        n += 1
+        ctx.ob(rid, 'Prior.unit_to_physical:own-coordinate', own, f.where(st),
+               'the coordinate read (%s) is the one stored to' % tgt_idx if own else
+               'the result is stored at [%s] but computed from coordinate(s) %s: a parameter is '
+               'driven by another parameter\'s unit coordinate' % (tgt_idx, sorted(set(reads))))
+    ctx.require(n >= 2, 'Prior.unit_to_physical: transformation of a free parameter not found')
+    # the coordinate counter starts at the first coordinate
+    for q in ('Prior.unit_to_physical', 'Prior.physical_to_dictionary'):
+        g = ctx.program.func(q)
+        from ..exprs import as_aug
+        counters = {as_aug(x)[0].id for x in walk_no_nested(g.node)
+                    if isinstance(x, (ast.Assign, ast.AugAssign)) and as_aug(x) is not None and
+                    isinstance(as_aug(x)[0], ast.Name) and isinstance(as_aug(x)[1], ast.Add)}
+        for c in sorted(counters):
+            inits = [x for x in walk_no_nested(g.node) if isinstance(x, ast.Assign) and
+                     len(x.targets) == 1 and isinstance(x.targets[0], ast.Name) and
+                     x.targets[0].id == c and as_aug(x) is None]
+            ok = bool(inits) and all(isinstance(x.value, ast.Constant) and x.value.value == 0
+                                     and not isinstance(x.value.value, bool) for x in inits)
+            ctx.ob(rid, '%s:counter-starts-at-zero' % q, ok, g.where(inits[0] if inits else None),
+                   'the coordinate counter starts at 0' if ok else
+                   'the coordinate counter does not start at 0: the first free parameter does '
+                   'not use the first unit coordinate')
+
+
+def rule_RANGE(ctx):
+    rid = 'D3'
+    ctx.rule(rid, 'declared range: a tuple (low, high) becomes the uniform distribution on '
+             '[low, high] -- scipy parametrisation loc = low, scale = high - low (linear forms); '
+             'a fixed number enters the dictionary multiplied into an array of ones only')
+    from ..gaps import linear, _Unknown
+    from fractions import Fraction
+    f = ctx.program.func('Prior.add_parameter')
+    n = 0
+    for st in walk_no_nested(f.node):
+        if not (isinstance(st, ast.Assign) and isinstance(st.value, ast.Call) and
+                (dotted(st.value.func) or '').split('.')[-1] == 'uniform'):
+            continue
+        c = st.value
+        kw = {k.arg: k.value for k in c.keywords}
+        loc = kw.get('loc', c.args[0] if len(c.args) > 0 else None)
+        scale = kw.get('scale', c.args[1] if len(c.args) > 1 else None)
+        src = None
+
+        def sym(e):
+            if isinstance(e, ast.Subscript) and isinstance(e.value, ast.Name) and \
+                    isinstance(e.slice, ast.Constant) and e.slice.value in (0, 1):
+                return 'lo' if e.slice.value == 0 else 'hi'
+            return None
+        try:
+            fl = linear(loc, sym, {}) if loc is not None else {}
+            fs = linear(scale, sym, {}) if scale is not None else {1: Fraction(1)}
+        except _Unknown as exc:
+            ctx.note('D3 not decided: %s' % exc)
+            continue
+        okl = {k: v for k, v in fl.items() if v} == {'lo': Fraction(1)}
+        oks = {k: v for k, v in fs.items() if v} == {'hi': Fraction(1), 'lo': Fraction(-1)}
+        n += 1
+        ctx.ob(rid, 'Prior.add_parameter:uniform-on-declared-range', okl and oks, f.where(st),
+               'tuple (low, high) -> uniform(loc=low, scale=high - low)' if okl and oks else
+               '`%s` is not the uniform distribution on the declared range [low, high] (scipy: '
+               'loc = low, scale = high - low)' % unparse(c)[:70])
+    ctx.require(n >= 1, 'Prior.add_parameter: conversion of a (low, high) tuple not found')
+    # fixed parameters: constant times ones
+    g = ctx.program.func('Prior.physical_to_dictionary')
+    for st in walk_no_nested(g.node):
+        if isinstance(st, ast.Assign) and isinstance(st.targets[0], ast.Subscript) and \
+                isinstance(st.value, ast.BinOp) and any(
+                    isinstance(x, ast.Call) and dotted(x.func) in ('np.ones', 'np.full',
+                                                                   'np.ones_like')
+                    for x in ast.walk(st.value)):
+            v = st.value
+            ok = isinstance(v.op, ast.Mult) and any(
+                isinstance(side, ast.Name) for side in (v.left, v.right)) and any(
+                isinstance(side, ast.Call) and dotted(side.func) in ('np.ones', 'np.ones_like')
+                for side in (v.left, v.right))
+            n += 1
+            ctx.ob(rid, 'Prior.physical_to_dictionary:fixed-is-constant', ok, g.where(st),
+                   'a fixed parameter is its declared value for every point' if ok else
+                   '`%s` does not give a fixed parameter its declared value' % unparse(st)[:60])
+    return n
+
+
 def rule_PAIR(ctx):
     rid = 'L1p'
     ctx.rule(rid, 'keys/dists lockstep: every normal-exit path of add_parameter appends exactly '
@@ -270,6 +395,8 @@ def run(ctx):
     rule_PAIR(ctx)
     rule_LINK(ctx)
     rule_DECL(ctx)
+    rule_ICDF(ctx)
+    rule_RANGE(ctx)
     rule_A1(ctx)
     ctx.floor('T1', 3, 'rejection exits')
     ctx.floor('T7', 1, 'appends to the key list')
